@@ -14,6 +14,18 @@ fn main() {
         std::process::exit(2);
     }
     let id = args[1].as_str();
+    if id == "lin" {
+        // debugging aid: compile a source file and print the linear model (no solver is called)
+        let src = std::fs::read_to_string(&args[2]).unwrap();
+        match rooc::RoocParser::new(src).parse_and_transform(vec![], &indexmap::IndexMap::new()) {
+            Ok(m) => match rooc::Linearizer::linearize(m) {
+                Ok(l) => println!("{l}"),
+                Err(e) => println!("linearization error: {e}"),
+            },
+            Err(e) => println!("error: {e}"),
+        }
+        return;
+    }
     if id == "stages" {
         // debugging aid: run every stage on a source file in-process
         let src = std::fs::read_to_string(&args[2]).unwrap();
